@@ -124,7 +124,7 @@ def arg_slices(u, sf, callee, kind, argno, nargs, name, ret_type, contract, only
 
 def build(u):
     u.externs.append("serde_derive")
-    u.features += ["pattern", "const_destruct"]
+    u.features += ["pattern", "const_destruct", "print_internals"]
     ar = u.src("proxy_agent/src/proxy/authorization_rules.rs")
     key = u.src("proxy_agent/src/key_keeper/key.rs")
     mh = u.src("proxy_agent_shared/src/misc_helpers.rs")
